@@ -57,11 +57,11 @@ type Miner struct {
 // World is one simulated run.
 type World struct {
 	noiseCtr uint64
-	tape  *sim.Tape
-	log   *sim.Log
-	stats sim.Stats
-	cfg   *Config
-	tier  string
+	tape     *sim.Tape
+	log      *sim.Log
+	stats    sim.Stats
+	cfg      *Config
+	tier     string
 
 	net     *consensus.Network
 	params  *ref.Params
